@@ -128,6 +128,7 @@ pub fn c04_schedule(seed: u64, index: u64, rep: &mut Report, free: bool) {
         if rng.chance(1, 3) {
             k.knobs.consume_limit = 1;
         }
+        k.knobs.sqpoll_strict = true;
         // The kernel completes a random subset of what is in flight at every entry.
         let mut krng = Rng::new(rng.next());
         let mut seen_offsets: std::collections::HashSet<u64> = std::collections::HashSet::new();
@@ -252,6 +253,7 @@ pub fn c04_schedule(seed: u64, index: u64, rep: &mut Report, free: bool) {
                     let mut k = simk::k();
                     simk::enter::sqpoll_run(&mut k);
                 }
+                simk::enter::kernel_tick();
                 n += 1;
                 sched::yield_now();
             }
@@ -637,13 +639,14 @@ pub fn c11_schedule(seed: u64, index: u64, rep: &mut Report, free: bool) {
     let family = *rng.pick(&["S1-concurrent", "S1-concurrent", "S2-wake-before-poll", "S3-poll-loop"]);
     let nwakers = 1 + rng.below(3) as usize;
     let sq_size = *rng.pick(&[1u32, 2, 8]);
-    let fill_queue = ring_type == "default" && rng.chance(1, 3);
+    let fill_queue = ring_type != "single-issuer" && rng.chance(1, 3);
     simk::reset(seed ^ index);
     alloc::CONSUMER_PHASE_HOLDS.store(false, Ordering::SeqCst);
     {
         let mut k = simk::k();
         k.knobs.layout_seed = rng.next() | 1;
         k.knobs.sq_start = if rng.chance(1, 3) { 0u32.wrapping_sub(rng.below(4) as u32) } else { 0 };
+        k.knobs.sqpoll_strict = true;
     }
     let mut cfg = Ring::config().with_submission_queue_size(sq_size);
     match ring_type {
@@ -674,6 +677,8 @@ pub fn c11_schedule(seed: u64, index: u64, rep: &mut Report, free: bool) {
     }
     let polls_wanted: u64 = if family == "S3-poll-loop" { 2 + rng.below(3) } else { 1 };
     let polls_done = Arc::new(AtomicU64::new(0));
+    let users_done = Arc::new(AtomicUsize::new(0));
+    let mut n_users = 1;
     if family == "S2-wake-before-poll" {
         for _ in 0..nwakers {
             let s = sq.clone();
@@ -683,6 +688,7 @@ pub fn c11_schedule(seed: u64, index: u64, rep: &mut Report, free: bool) {
     let mut threads: Vec<Box<dyn FnOnce() + Send>> = Vec::new();
     {
         let polls_done = polls_done.clone();
+        let users_done_ring = users_done.clone();
         threads.push(Box::new(move || {
             for _ in 0..polls_wanted {
                 sched::point(sched::P_API);
@@ -691,12 +697,15 @@ pub fn c11_schedule(seed: u64, index: u64, rep: &mut Report, free: bool) {
             }
             // Completions for the parked operations are irrelevant here.
             alloc::consumer(|| drop(ring));
+            users_done_ring.fetch_add(1, Ordering::SeqCst);
         }));
     }
     if family != "S2-wake-before-poll" {
         for w in 0..nwakers {
             let s = sq.clone();
             let polls_done = polls_done.clone();
+            let users_done = users_done.clone();
+            n_users += 1;
             threads.push(Box::new(move || {
                 let my_wakes: Vec<u64> = if family == "S3-poll-loop" {
                     // Wake i+1 is only issued after poll i returned.
@@ -708,20 +717,22 @@ pub fn c11_schedule(seed: u64, index: u64, rep: &mut Report, free: bool) {
                     if family == "S3-poll-loop" {
                         let pd = polls_done.clone();
                         if !sched::wait_until(move || pd.load(Ordering::SeqCst) >= i) {
-                            return;
+                            break;
                         }
                     }
                     sched::point(sched::P_API);
                     alloc::a10(|| s.wake());
                 }
+                users_done.fetch_add(1, Ordering::SeqCst);
             }));
         }
     }
     if ring_type == "kernel-thread" {
-        let polls_done = polls_done.clone();
+        let users_done = users_done.clone();
         threads.push(Box::new(move || {
+            // The kernel's submission thread lives as long as the io_uring does.
             let mut n = 0;
-            while polls_done.load(Ordering::SeqCst) < polls_wanted && n < 20_000 && !sched::aborted() {
+            while users_done.load(Ordering::SeqCst) < n_users && n < 5_000_000 && !sched::aborted() {
                 sched::point(sched::P_KTHREAD);
                 {
                     let mut k = simk::k();
@@ -737,7 +748,7 @@ pub fn c11_schedule(seed: u64, index: u64, rep: &mut Report, free: bool) {
         sched::run_free(threads, rng.next());
         free_stats()
     } else {
-        sched::run(threads, rng.next(), policy, 200_000)
+        sched::run(threads, rng.next(), policy, 40_000)
     };
     // A poll that could never return is a lost wake-up.
     let kv = simk::k().take_violations();
